@@ -401,7 +401,11 @@ class Translator:
                 for k, e in enumerate(r.els): o.append('  %s v_%s_%d = 0;' % (ctype(P.resolve(e)), cname(n), k))
             elif r.k != 'void': o.append('  %s v_%s = 0;' % (ctype(r), cname(n)))
         for n, ty in s.vtypes.items():
-            if n in [d for d, _, _ in sum(phis.values(), [])]: o.append('  %s t_%s = 0;' % (ctype(P.resolve(ty)), cname(n)))
+            if n in [d for d, _, _ in sum(phis.values(), [])]:
+                r = P.resolve(ty)
+                if r.k == 'struct':
+                    for k, e in enumerate(r.els): o.append('  %s t_%s_%d = 0;' % (ctype(P.resolve(e)), cname(n), k))
+                else: o.append('  %s t_%s = 0;' % (ctype(r), cname(n)))
         o += ['  ' + c for c in code]
         o.append('}')
         return o
@@ -412,9 +416,17 @@ class Translator:
         to = to.lstrip('%').strip('"'); out = []
         ph = s.phis.get(to, [])
         for dst, ty, pairs in ph:
+            r = s.P.resolve(ty)
             for val, pred in pairs:
-                if pred.lstrip('%').strip('"') == frm: out.append('t_%s = %s;' % (cname(dst), s.value(ty, val)))
-        for dst, ty, pairs in ph: out.append('v_%s = t_%s;' % (cname(dst), cname(dst)))
+                if pred.lstrip('%').strip('"') == frm:
+                    if r.k == 'struct':    # first-class aggregate (landingpad pair, *.with.overflow pair): component-wise
+                        for k, e in enumerate(r.els): out.append('t_%s_%d = %s;' % (cname(dst), k, ('v_%s_%d' % (cname(val.strip()), k)) if val.strip().startswith('%') else '0'))
+                    else: out.append('t_%s = %s;' % (cname(dst), s.value(ty, val)))
+        for dst, ty, pairs in ph:
+            r = s.P.resolve(ty)
+            if r.k == 'struct':
+                for k, e in enumerate(r.els): out.append('v_%s_%d = t_%s_%d;' % (cname(dst), k, cname(dst), k))
+            else: out.append('v_%s = t_%s;' % (cname(dst), cname(dst)))
         out.append('goto L_%s;' % cname(to)); return ' '.join(out)
 
     def operand(s, txt):
